@@ -153,16 +153,28 @@ def run_property(pid, tier, seed, root):
     kani_results = []
     with ThreadPoolExecutor(max_workers=6) as ex:
         futs = [ex.submit(do, j) for j in alljobs]
+        sfut = None
+        if cfg.get('spec_vs_python'):
+            import spec_conformance
+            sfut = ex.submit(spec_conformance.main, os.path.join(build, 'spec_conf'), seed)
         kfut = None
         if kani_run is not None and cfg.get('kani'):
             kfut = ex.submit(kani_run.run_all, pid, cfg['kani'], tier, root, build)
         results = [f.result() for f in futs]
         if kfut is not None:
             kani_results = kfut.result()
+        spec_conf = None
+        if sfut is not None:
+            try:
+                spec_conf = sfut.result()
+            except Exception as e:
+                spec_conf = {'ok': False, 'error': repr(e)}
 
     failures: list[Failure] = []
     undecided: list[str] = []
     unsound: list[str] = []
+    if spec_conf is not None and not spec_conf.get('ok'):
+        unsound.append('spec functions disagree with ground instances computed by CPython (specs/*.rs are wrong, not /repo): ' + str(spec_conf.get('error'))[:600])
     obligations = discharged = 0
     samples = []
     fn_table = []
@@ -453,7 +465,7 @@ def run_property(pid, tier, seed, root):
             'not_covered': cfg.get('not_covered', []),
             'samples': samples,
             'failed_obligations': [oid for _, oid in viol_lines],
-            'undecided': undecided, 'unsound': unsound, 'standin_search': standin, 'sensitivity_self_test': sens, 'spec_vs_cpython': spec_sanity, 'exploration_sweep': ({k: v for k, v in sweep.items() if k != 'counterexample'} if sweep else None),
+            'undecided': undecided, 'unsound': unsound, 'standin_search': standin, 'sensitivity_self_test': sens, 'spec_vs_cpython': spec_sanity, 'spec_conformance': spec_conf, 'exploration_sweep': ({k: v for k, v in sweep.items() if k != 'counterexample'} if sweep else None),
             'explanation': ('obligations = proof obligations (AIR assert terms) generated by Verus for the functions of each unit '
                             'assembled from /repo on this run, plus the property checks of complete (loop-free, full-domain) Kani '
                             'harnesses on the real crates; bounded Kani harnesses are listed under bounded_checks and are not counted'),
